@@ -22,8 +22,13 @@ PROP = {
                   "interfaces, one per effective conformance in distinctConformances order (inherited_events_order), "
                   "then its own ResourceDestroyed payload whose values are the default-argument expressions evaluated "
                   "on the resource as it was before destruction (destroy_defaults). Tied to /repo by the stream `events`: generated programs declaring events with "
-                  "parameters of Int/UInt8/Int64/Bool/String/Address, optionals and arrays of them (field names "
-                  "not in alphabetical order), emitting them from statements, pre-/post-conditions and (nested) resource "
+                  "parameters of Int/UInt8/Int64/Bool/String/Address, optionals, doubly optionals and arrays of them, "
+                  "references (&T, &T?, [&T], [&T?], [&T]? over Int/String/[Int]/[String], ephemeral and borrowed from "
+                  "storage; the same reference value in several fields / array positions of one event; a reference's "
+                  "payload is the exported referenced value) (field names "
+                  "not in alphabetical order), arguments that are literals, resource fields, conditionals with nil in either "
+                  "branch (both truth values), optional chaining, nil-coalescing, force unwrap (also failing), static "
+                  "and failable casts, transferred to optional and doubly optional parameters; emitting them from statements, pre-/post-conditions and (nested) resource "
                   "destruction after field updates, resources conforming to DAGs of resource interfaces with their own "
                   "ResourceDestroyed events, on interpreter, VM and VM+peephole; the recording host's payloads "
                   "(type id, field names in payload order, exported values), log and outcome vs the model; direct "
